@@ -120,13 +120,14 @@ class FusedIO(BlockwiseIO):
         return len(self._fusion_buckets)
 
     def _divisions(self):
-        divisions = self.operand("_expr")._divisions()
+        expr = self.operand("_expr")
+        if expr.divisions[0] is None:
+            # unknown, or lost by a reordered / repeated partition selection
+            return (None,) * (len(self._fusion_buckets) + 1)
+        divisions = expr._divisions()
         new_divisions = [divisions[b[0]] for b in self._fusion_buckets]
-        if new_divisions[0] is None:
-            new_divisions.append(None)
-        else:
-            # upper bound of the last fused partition (not its partition number)
-            new_divisions.append(divisions[self._fusion_buckets[-1][-1] + 1])
+        # upper bound of the last fused partition (not its partition number)
+        new_divisions.append(divisions[self._fusion_buckets[-1][-1] + 1])
         return tuple(new_divisions)
 
     def _task(self, index: int):
